@@ -14,8 +14,8 @@ def run(ctx):
         "commutation with rotation live in Biopython."
     )
     r.not_decided = ["everything computed by Biopython's reverse_complement/_flip"]
-    revcomp_wrapper_rule(ctx, "C14.revcomp")
-    ctor_rule(ctx, "C14.copy-ctor")
+    ctx.guard(revcomp_wrapper_rule, ctx, "C14.revcomp")
+    ctx.guard(ctor_rule, ctx, "C14.copy-ctor")
     # commutation with rotation rests on the rotation kernels
     from ..kernels import run_kernels
     run_kernels(ctx, ["K3", "K5"], "C14")
